@@ -1,12 +1,19 @@
 import QtVerif.Proofs.TimeFnsPause
 import QtVerif.Proofs.TimeFnsDelay
+import QtVerif.Proofs.TimeFnsHistory
 /-!
 C16 — Time-processing functions follow their temporal specification; the hub's skipping of evaluations while such a
 function is "paused" never changes the value a port takes.
 
 Property theorems only. Model: `QtVerif/Model/TimeFns.lean` (mirrors timeprocessing.py, various.py, base.py,
 functions.py, main.py:handle_value_changes); helper lemmas: `Proofs/TimeFns.lean`, `Proofs/TimeFnsDelay.lean`,
-`Proofs/TimeFnsPause.lean`.
+`Proofs/TimeFnsPause.lean`, `Proofs/TimeFnsHistory.lean`.
+
+DERIV / INTEG / FMAVG / FMEDIAN are specified at the level of the HISTORY (`…_of_accepted`): the right-hand sides are
+written with `accepted interval h` (the greedy sub-history of samples spaced by the sampling interval), `consecutive`
+(neighbouring pairs) and `evaluated thr` (accepted samples not reached across a time jump) only — no memory, no step
+function. `deriv_spec`, `integ_spec`, `fmavg_spec`, `fmedian_spec` are the ONE-STEP forms (the step function with the
+memory made an explicit argument) and are kept as intermediate lemmas.
 
 Every theorem quantifies over ALL histories (any length, any gaps, jumps beyond the time-jump threshold) and all
 parameter values; the constants of the code (`HISTORY_SIZE`, `QUEUE_SIZE`, `TIME_JUMP_THRESHOLD`) are the fields of
@@ -150,20 +157,120 @@ example : runFn (fun m (v : Int) => risingStep m v) {} [3, 3, 5, 4, 4, 9] = [.ok
 
 /-! ## DERIV / INTEG -/
 
-/-- **DERIV computes the difference quotient over samples spaced by the sampling interval**: over every history the
-outputs are `derivSpec` — the quotient (per second) between the current sample and the previously accepted one;
-samples closer than the interval are skipped; a gap beyond the time-jump threshold yields nothing and re-bases. -/
+/-- One-step form of DERIV (intermediate lemma; the history-level statement is
+`deriv_is_difference_quotient_of_accepted`): the step function equals `derivSpec`, the same case analysis with the
+remembered sample as an explicit argument. -/
 theorem deriv_spec {α : Type} [Num α] (P : Params) (interval : α) (h : List (Int × α)) (m : Mem α) :
     runFn (fun m (x : Int × α) => derivStep P m x.1 x.2 interval) m h = derivSpec P.thr interval (memBase m) h :=
   QtVerif.TimeFns.deriv_spec P interval h m
 
-/-- **INTEG computes the trapezoid sum over samples spaced by the sampling interval**: with the accumulator fed back
-from the port, the port value after every history is the initial value plus the trapezoid areas between consecutive
-accepted samples (none across a time jump). -/
+/-- One-step form of INTEG under feedback (intermediate lemma; the history-level statement is
+`integ_is_trapezoid_sum_of_accepted`). -/
 theorem integ_spec {α : Type} [Num α] (P : Params) (interval : α) (h : List (Int × α)) (m : Mem α) (a : α) :
     integFeedback P interval m a h = integArea P.thr interval a (memBase m) h :=
   integ_trapezoid_sum P interval h m a
 
+/-! ### The accepted samples: "samples spaced by the sampling interval"
+
+`accepted interval h` is defined greedily, oldest sample first: the first sample is accepted, a later one is accepted
+unless it is closer than `interval` to the LAST ACCEPTED one (`lt (ofInt Δt) interval`, the comparison of the code). A
+sample more than `TIME_JUMP_THRESHOLD` after the accepted one is accepted like any other (it becomes the new base);
+the jump only removes the pair it closes from the formulas below. -/
+
+/-- The defining equation, newest sample last. -/
+theorem accepted_greedy {α : Type} [Num α] (interval : α) (h : List (Int × α)) (x : Int × α) :
+    accepted interval (h ++ [x]) =
+      match (accepted interval h).getLast? with
+      | none => accepted interval h ++ [x]
+      | some p => if lt (ofInt (x.1 - p.1)) interval then accepted interval h else accepted interval h ++ [x] :=
+  accepted_snoc interval h x
+
+/-- What the definition yields: a sub-history that starts with the first sample and whose neighbours are never closer
+than the interval. -/
+theorem accepted_is_spaced_subhistory {α : Type} [Num α] (interval : α) (h : List (Int × α)) :
+    (accepted interval h).Sublist h ∧ (accepted interval h).head? = h.head? ∧
+    ∀ pq ∈ consecutive (accepted interval h), lt (ofInt (pq.2.1 - pq.1.1)) interval = false := by
+  refine ⟨accepted_sublist interval h, ?_, accepted_spaced interval h⟩
+  cases h with
+  | nil => rfl
+  | cons x r => exact accepted_head interval x r
+
+/-- `consecutive` is "each element with its successor". -/
+theorem consecutive_is_zip_with_tail {β : Type} (l : List β) : consecutive l = l.zip l.tail := consecutive_eq_zip l
+
+/-- **DERIV computes the difference quotient over samples spaced by the sampling interval.** For every history `h`
+(any length, gaps, jumps, times in any order) and a positive interval: when the newest sample `x` is accepted, `p` is
+the accepted sample before it and the two are not separated by a time jump, the newest output of a freshly parsed
+`DERIV` is `(x.value − p.value) / (x.time − p.time) · 1000` (per second; times are milliseconds). -/
+theorem deriv_is_difference_quotient_of_accepted {α : Type} [Num α] (P : Params) (interval : α)
+    (hpos : lt (ofInt 0 : α) interval = true) (h : List (Int × α)) (p x : Int × α)
+    (hp : (accepted interval h).getLast? = some p)
+    (hx : accepted interval (h ++ [x]) = accepted interval h ++ [x])
+    (hj : x.1 - p.1 ≤ P.thr) :
+    (runFn (derivStep' P interval) {} (h ++ [x])).getLast?
+      = some (.ok (mul (div (sub x.2 p.2) (ofInt (x.1 - p.1))) (ofInt 1000))) :=
+  ((deriv_last_of_accepted P interval hpos h x).2 p hp).2.2 ((accepted_grows_iff interval h p x hp).mp hx) hj
+
+/-- … and nothing else is produced: the first sample of a history yields 0; a sample that is not accepted, or that is
+more than the time-jump threshold after the accepted one (it only becomes the new base), yields no value. -/
+theorem deriv_yields_nothing_otherwise {α : Type} [Num α] (P : Params) (interval : α)
+    (hpos : lt (ofInt 0 : α) interval = true) (h : List (Int × α)) (x : Int × α) :
+    (h = [] → (runFn (derivStep' P interval) {} (h ++ [x])).getLast? = some (.ok (ofInt 0))) ∧
+    (∀ p, (accepted interval h).getLast? = some p →
+      accepted interval (h ++ [x]) = accepted interval h ∨ x.1 - p.1 > P.thr →
+      (runFn (derivStep' P interval) {} (h ++ [x])).getLast? = some (.error .skipped)) :=
+  ⟨fun he => (deriv_last_of_accepted P interval hpos h x).1 (by rw [he]; rfl),
+   fun p hp hx => deriv_last_skipped P interval hpos h p x hp hx⟩
+
+/-- The carrier `Int` spelled out. -/
+theorem deriv_is_difference_quotient_of_accepted_int (P : Params) (interval : Int) (hpos : 0 < interval)
+    (h : List (Int × Int)) (p x : Int × Int) (hp : (accepted interval h).getLast? = some p)
+    (hx : accepted interval (h ++ [x]) = accepted interval h ++ [x]) (hj : x.1 - p.1 ≤ P.thr) :
+    (runFn (derivStep' P interval) {} (h ++ [x])).getLast? = some (.ok ((x.2 - p.2) / (x.1 - p.1) * 1000)) :=
+  deriv_is_difference_quotient_of_accepted P interval (by simpa using hpos) h p x hp hx hj
+
+/-- Outside the hypothesis (interval not positive): a sample at the very time of the accepted one divides by zero — the
+evaluation raises and the sample is not adopted. -/
+theorem deriv_zero_gap_raises {α : Type} [Num α] (P : Params) (interval : α)
+    (hnp : lt (ofInt 0 : α) interval = false) (m : Mem α) (p x : Int × α) (hb : memBase m = some p)
+    (h0 : x.1 = p.1) (hthr : 0 ≤ P.thr) :
+    (derivStep' P interval m x).1 = m ∧ (derivStep' P interval m x).2.1 = .error .exc :=
+  QtVerif.TimeFns.deriv_zero_gap_raises P interval hnp m p x hb h0 hthr
+
+/-- **INTEG computes the trapezoid sum over samples spaced by the sampling interval.** With the accumulator fed back
+from the port (`INTEG($x, $, T)`; a skipped evaluation leaves the port alone), for EVERY history, interval and
+threshold the port value of a freshly parsed `INTEG` is the initial value plus — added oldest first — the areas
+`(vᵢ + vᵢ₋₁) · (tᵢ − tᵢ₋₁) / 2000` (value·seconds) of the neighbouring accepted samples that are not separated by a
+time jump. No hypothesis. -/
+theorem integ_is_trapezoid_sum_of_accepted {α : Type} [Num α] (P : Params) (interval a0 : α)
+    (h : List (Int × α)) :
+    integFeedback P interval {} a0 h =
+      (((consecutive (accepted interval h)).filter (fun pq => decide (pq.2.1 - pq.1.1 ≤ P.thr))).map
+        (fun pq => div (mul (add pq.2.2 pq.1.2) (ofInt (pq.2.1 - pq.1.1))) (ofInt 2000))).foldl add a0 := by
+  rw [integFeedback_eq_foldl]
+  exact (integ_inv P interval a0 h).2
+
+/-- The carrier `Int` spelled out: initial value + Σ of the areas. -/
+theorem integ_is_trapezoid_sum_of_accepted_int (P : Params) (interval a0 : Int) (h : List (Int × Int)) :
+    integFeedback P interval {} a0 h =
+      a0 + (((consecutive (accepted interval h)).filter (fun pq => decide (pq.2.1 - pq.1.1 ≤ P.thr))).map
+        (fun pq => (pq.2.2 + pq.1.2) * (pq.2.1 - pq.1.1) / 2000)).sum := by
+  rw [integ_is_trapezoid_sum_of_accepted, foldl_add_eq_sum]
+  rfl
+
+/-! Non-vacuity: six samples, one of them too early (1050), one reached across a time jump (5000; threshold 1000). -/
+
+def exHist : List (Int × Int) := [(1000, 100), (1050, 990), (1100, 300), (1200, 600), (5000, 700), (5100, 1100)]
+
+example : accepted (100 : Int) exHist = [(1000, 100), (1100, 300), (1200, 600), (5000, 700), (5100, 1100)] ∧
+    evaluated 1000 (accepted (100 : Int) exHist) = [(1000, 100), (1100, 300), (1200, 600), (5100, 1100)] := by decide
+/-- the hypotheses of `deriv_is_difference_quotient_of_accepted` at the newest sample, and at the fourth one -/
+example : (accepted (100 : Int) exHist.dropLast).getLast? = some (5000, 700) ∧
+    accepted (100 : Int) (exHist.dropLast ++ [(5100, 1100)]) = accepted (100 : Int) exHist.dropLast ++ [(5100, 1100)] ∧
+    (5100 : Int) - 5000 ≤ ({ thr := 1000 } : Params).thr := by decide
+example : runFn (derivStep' { thr := 1000 } (100 : Int)) {} exHist
+    = [.ok 0, .error .skipped, .ok 2000, .ok 3000, .error .skipped, .ok 4000] := by decide
+example : integFeedback (α := Int) { thr := 1000 } 100 {} 10 exHist = 10 + (20 + 45 + 90) := by decide
 example : runFn (fun m (x : Int × Int) => derivStep {} m x.1 x.2 100) {} [(1000, 100), (1050, 200), (1100, 300),
     (1300, 100)] = [.ok 0, .error .skipped, .ok 2000, .ok (-1000)] := by decide
 example : integFeedback (α := Int) {} 100 {} 10 [(1000, 1000), (1050, 2000), (1100, 3000), (1300, 1000)]
@@ -171,14 +278,14 @@ example : integFeedback (α := Int) {} 100 {} 10 [(1000, 1000), (1050, 2000), (1
 
 /-! ## FMAVG / FMEDIAN -/
 
-/-- **FMAVG computes the mean over the last `w` samples spaced by the sampling interval** (integral width `w ≥ 1`,
-clipped to `QUEUE_SIZE`): over every history the outputs are `fmSpec … meanOf`. -/
+/-- One-step form of FMAVG (intermediate lemma; the history-level statement is `fmavg_is_mean_of_last_accepted`):
+the step function equals `fmSpec … meanOf`, the same case analysis with time and window as explicit arguments. -/
 theorem fmavg_spec (P : Params) (w : Nat) (hw : 1 ≤ w) (hQ : 1 ≤ P.Q) (interval : Int) (h : List (Int × Int))
     (m : Mem Int) (acc : List Int) (hm : m.w = lastK (min w P.Q) acc) :
     runFn (fmStep' P P.Q meanOf w interval) m h = fmSpec P.thr meanOf (min w P.Q) interval m.t acc h :=
   fm_spec P P.Q meanOf w hw hQ interval h m acc hm
 
-/-- **FMEDIAN computes the median over the last `w` samples spaced by the sampling interval**. -/
+/-- One-step form of FMEDIAN (intermediate lemma; see `fmedian_is_upper_median_of_last_accepted`). -/
 theorem fmedian_spec (P : Params) (w : Nat) (hw : 1 ≤ w) (hQ : 1 ≤ P.Qm) (interval : Int) (h : List (Int × Int))
     (m : Mem Int) (acc : List Int) (hm : m.w = lastK (min w P.Qm) acc) :
     runFn (fmStep' P P.Qm medianOf w interval) m h = fmSpec P.thr medianOf (min w P.Qm) interval m.t acc h :=
@@ -191,13 +298,81 @@ theorem fmedian_is_upper_median (win : List Int) (hne : win ≠ []) :
       medianOf win = .ok s[win.length / 2] :=
   medianOf_spec win hne
 
-/-- The mean is `sum / count`. -/
+/-- The aggregate of FMAVG unfolded (`rfl`; used by `fmavg_is_mean_of_last_accepted`). -/
 theorem fmavg_is_mean (win : List Int) : meanOf win = .ok (win.foldl (· + ·) 0 / (win.length : Int)) := rfl
+
+/-- **FMAVG computes the mean over the last `w` samples spaced by the sampling interval.** For every history of
+positive times (any gaps, jumps, order), a constant integral width `w ≥ 1` and any interval: when the newest sample is
+accepted and not reached across a time jump, the newest output of a freshly parsed `FMAVG` is `Σ win / |win|`, where
+`win` are the VALUES of the last `min(w, QUEUE_SIZE)` evaluated accepted samples (fewer while the history is short); the
+window ends with the newest value. -/
+theorem fmavg_is_mean_of_last_accepted (P : Params) (w : Nat) (hw : 1 ≤ w) (hQ : 1 ≤ P.Q) (interval : Int)
+    (h : List (Int × Int)) (x : Int × Int) (hpos : ∀ y ∈ h ++ [x], 0 < y.1)
+    (hx : accepted interval (h ++ [x]) = accepted interval h ++ [x])
+    (hj : ∀ p, (accepted interval h).getLast? = some p → x.1 - p.1 ≤ P.thr) :
+    let win := lastK (min w P.Q) ((evaluated P.thr (accepted interval (h ++ [x]))).map (·.2))
+    (runFn (fmStep' P P.Q meanOf w interval) {} (h ++ [x])).getLast? = some (.ok (win.sum / (win.length : Int))) ∧
+    ∃ pre, win = pre ++ [x.2] := by
+  intro win
+  refine ⟨?_, window_ends_with_newest P.thr (min w P.Q) (by omega) interval h x hx hj⟩
+  rw [fm_last_evaluated P P.Q meanOf w hw hQ interval h x hpos hx hj, List.sum_eq_foldl]
+  rfl
+
+/-- **FMEDIAN computes the (upper) median over the last `w` samples spaced by the sampling interval.** Same
+hypotheses; the newest output is the element at index `⌊|win|/2⌋` of the ascending arrangement of the window `win` of
+the last `min(w, QUEUE_SIZE)` evaluated accepted values: the median for an odd count, the UPPER of the two middle
+values for an even one. -/
+theorem fmedian_is_upper_median_of_last_accepted (P : Params) (w : Nat) (hw : 1 ≤ w) (hQ : 1 ≤ P.Qm)
+    (interval : Int) (h : List (Int × Int)) (x : Int × Int) (hpos : ∀ y ∈ h ++ [x], 0 < y.1)
+    (hx : accepted interval (h ++ [x]) = accepted interval h ++ [x])
+    (hj : ∀ p, (accepted interval h).getLast? = some p → x.1 - p.1 ≤ P.thr) :
+    let win := lastK (min w P.Qm) ((evaluated P.thr (accepted interval (h ++ [x]))).map (·.2))
+    (∃ pre, win = pre ++ [x.2]) ∧
+    ∃ s : List Int, s.Perm win ∧ s.Pairwise (· ≤ ·) ∧ ∃ hlt : win.length / 2 < s.length,
+      (runFn (fmStep' P P.Qm medianOf w interval) {} (h ++ [x])).getLast? = some (.ok s[win.length / 2]) := by
+  intro win
+  have hend := window_ends_with_newest P.thr (min w P.Qm) (by omega) interval h x hx hj
+  refine ⟨hend, ?_⟩
+  have hne : win ≠ [] := by
+    obtain ⟨pre, hpre⟩ := hend
+    intro hc
+    have : win = pre ++ [x.2] := hpre
+    rw [hc] at this
+    simp at this
+  obtain ⟨s, hperm, hsorted, hlt, hmed⟩ := medianOf_spec win hne
+  refine ⟨s, hperm, hsorted, hlt, ?_⟩
+  rw [fm_last_evaluated P P.Qm medianOf w hw hQ interval h x hpos hx hj]
+  exact congrArg some hmed
+
+/-- … and nothing else is produced: a sample that is not accepted, or that is more than the time-jump threshold after
+the accepted one (its value never enters the window; it only re-bases the clock), yields no value. -/
+theorem fm_yields_nothing_otherwise (P : Params) (Q : Nat) (agg : List Int → Res Int) (w : Nat) (hw : 1 ≤ w)
+    (hQ : 1 ≤ Q) (interval : Int) (h : List (Int × Int)) (x p : Int × Int) (hpos : ∀ y ∈ h ++ [x], 0 < y.1)
+    (hp : (accepted interval h).getLast? = some p)
+    (hx : accepted interval (h ++ [x]) = accepted interval h ∨ x.1 - p.1 > P.thr) :
+    (runFn (fmStep' P Q agg w interval) {} (h ++ [x])).getLast? = some (.error .skipped) :=
+  fm_last_skipped P Q agg w hw hQ interval h x p hpos hp hx
 
 example : runFn (fmStep' { Q := 3 } 3 meanOf 5 100) {} [(1000, 3), (1050, 100), (1100, 9), (1200, 6), (1300, 30)]
     = [.ok 3, .error .skipped, .ok 6, .ok 6, .ok 15] := by decide
 example : runFn (fmStep' {} 1024 medianOf 4 100) {} [(1000, 3), (1100, 9), (1200, 6), (1300, 30), (1400, 1)]
     = [.ok 3, .ok 9, .ok 6, .ok 9, .ok 9] := by decide
+
+/-- Non-vacuity on `exHist` (one sample too early, one reached across a jump): the hypotheses at the newest sample,
+the window, and the outputs (width 2: the value 700 reached across the jump never enters the window; the median of
+`[600, 1100]` is the upper one). -/
+example : (∀ y ∈ exHist.dropLast ++ [(5100, 1100)], (0 : Int) < y.1) ∧
+    accepted (100 : Int) (exHist.dropLast ++ [(5100, 1100)]) = accepted (100 : Int) exHist.dropLast ++ [(5100, 1100)] ∧
+    (∀ p, (accepted (100 : Int) exHist.dropLast).getLast? = some p → (5100 : Int) - p.1 ≤ 1000) ∧
+    lastK 2 ((evaluated 1000 (accepted (100 : Int) exHist)).map (·.2)) = [600, 1100] := by
+  refine ⟨by decide, by decide, ?_, by decide⟩
+  intro p hp
+  have : (accepted (100 : Int) exHist.dropLast).getLast? = some (5000, 700) := by decide
+  rw [this] at hp; cases hp; decide
+example : runFn (fmStep' { thr := 1000 } 1024 meanOf 2 100) {} exHist
+    = [.ok 100, .error .skipped, .ok 200, .ok 450, .error .skipped, .ok 850] := by decide
+example : runFn (fmStep' { thr := 1000 } 1024 medianOf 2 100) {} exHist
+    = [.ok 100, .error .skipped, .ok 300, .ok 600, .error .skipped, .ok 1100] := by decide
 
 /-! ## SEQUENCE -/
 
